@@ -3,6 +3,10 @@
 import json, os
 V = os.path.dirname(os.path.dirname(os.path.abspath(__file__)))
 rows = []
+try:
+    NOTES = json.load(open(os.path.join(V, "seeded", "NOTES.json")))
+except Exception:
+    NOTES = {}
 for name in sorted(os.listdir(os.path.join(V, "seeded"))):
     p = os.path.join(V, "seeded", name, "meta.json")
     if not os.path.exists(p):
@@ -10,7 +14,7 @@ for name in sorted(os.listdir(os.path.join(V, "seeded"))):
     m = json.load(open(p))
     c = m.get("confirmation", {})
     fired = c.get("checks_fired", {})
-    notes = m.get("verif_notes", "")
+    notes = NOTES.get(name, m.get("verif_notes", ""))
     rows.append("| %s | %s | %s | %s | %s |" % (
         name, m.get("property", "?"), (m.get("summary", "") or "").replace("|", "/").replace("\n", " ")[:160],
         ", ".join("%s" % k for k in sorted(fired)) or "**none**", notes))
